@@ -318,7 +318,9 @@ def adc(img, gain, saturation_capacity=None, warn_saturate=False, dtype=None):
         raise ValueError
 
     # Prepare a cube of electron counts to apply the polynomial gain to
-    img_cube = np.repeat(img[np.newaxis, :, :], model_order, axis=0)
+    # (in floating point: powers of integer or single precision counts would be
+    # taken in the frame's own dtype)
+    img_cube = np.repeat(np.asarray(img, dtype=float)[np.newaxis, :, :], model_order, axis=0)
     for order in np.arange(model_order, 1, -1):
         d = model_order - order
         img_cube[d] = img_cube[d]**order
